@@ -291,7 +291,17 @@ fn history(seed: u64, steps: usize) -> Vec<Case> {
                     let (t0, t1);
                     if via_network {
                         let mut p = Packet::new_reply(0);
-                        p.answers.push(rr.clone());
+                        // one response in three carries the record twice, with another lifetime or flush bit the first time
+                        // (an answer repeated in the additional section, a goodbye followed by a fresh announcement): what
+                        // comes last in the response counts, as it does across responses
+                        if r.chance(1, 3) {
+                            let mut first = recs[i].clone().with_cache_flush(r.chance(1, 3));
+                            first.ttl = *r.pick(&[0u32, 1, 2, 4500, 120, u32::MAX]);
+                            p.answers.push(first);
+                            if r.chance(1, 2) { p.answers.push(rr.clone()); } else { p.additional_records.push(rr.clone()); }
+                        } else {
+                            p.answers.push(rr.clone());
+                        }
                         let wire = p.build_bytes_vec_compressed().unwrap();
                         let parsed = Packet::parse(&wire).unwrap();
                         let ptxt = text::packet(&parsed);
@@ -531,6 +541,68 @@ pub fn c20(tier: &str, seed: u64) -> Vec<Case> {
             let mut c = Case::new(format!("{} G {} {} {} {} 1", line, text::name(&owner), (fname != "auth-exact") as u8, auth as u8, cached as u8), sorted(got.clone())).tag("many-per-name").tag(fname);
             if got.len() != want { c = c.fail(if cached { "cache-expiry" } else { "auth-visibility" }, format!("{} records under one name, {} of them visible to the {} filter: {} returned", n, want, fname, got.len())); }
             v.push(c);
+        }
+    }
+    // a record disappears only when IT is removed: taking one record away changes what no query says about the others -
+    // also when it was the last one under its name and other records live below that name. Every subset of six records
+    // (two authoritative and one cached at a parent name, an authoritative and a cached one below it, one elsewhere), every
+    // removal of one or two of them in either order, every filter on every name (long TTLs: nothing expires meanwhile)
+    {
+        let nm = |ls: &[&[u8]]| mk_name(&ls.iter().map(|l| l.to_vec()).collect::<Vec<_>>());
+        let (parent, child, other, root) = (nm(&[b"x", b"local"]), nm(&[b"y", b"x", b"local"]), nm(&[b"z", b"local"]), nm(&[b"local"]));
+        let recs: Vec<(ResourceRecord<'static>, bool)> = vec![
+            (ResourceRecord::new(parent.clone(), CLASS::IN, 4500, RData::A(A { address: 0 })), false),
+            (ResourceRecord::new(parent.clone(), CLASS::IN, 4500, RData::A(A { address: 1 })), false),
+            (ResourceRecord::new(child.clone(), CLASS::IN, 4500, RData::A(A { address: 2 })), false),
+            (ResourceRecord::new(child.clone(), CLASS::IN, 4500, RData::A(A { address: 3 })), true),
+            (ResourceRecord::new(other.clone(), CLASS::IN, 4500, RData::A(A { address: 4 })), false),
+            (ResourceRecord::new(parent.clone(), CLASS::IN, 4500, RData::A(A { address: 5 })), true)];
+        let queries = |mgr: &ResourceRecordManager<'static>| -> Vec<Vec<String>> {
+            let mut out = vec![];
+            for n in [&parent, &child, &other, &root] {
+                for f in [DomainResourceFilter::authoritative(false), DomainResourceFilter::authoritative(true), DomainResourceFilter::cached(), DomainResourceFilter::all()] {
+                    let mut got: Vec<String> = mgr.get_domain_resources(n, f).flatten().map(|r| text::rdata(&r.rdata)).collect();
+                    got.sort();
+                    out.push(got);
+                }
+            }
+            out
+        };
+        let mut k = 0usize;
+        for mask in 1u32..64 {
+            let present: Vec<usize> = (0..6).filter(|i| mask >> i & 1 == 1).collect();
+            let mut seqs: Vec<Vec<usize>> = present.iter().map(|i| vec![*i]).collect();
+            for a in &present { for b in &present { if a != b { seqs.push(vec![*a, *b]); } } }
+            for seq in seqs {
+                k += 1;
+                let mut mgr: ResourceRecordManager<'static> = ResourceRecordManager::new();
+                let mut line = String::from("mdns");
+                for i in &present {
+                    if recs[*i].1 { mgr.add_cached_resource(recs[*i].0.clone()); line.push_str(&format!(" C 0 {}", text::rr(&recs[*i].0))); }
+                    else { mgr.add_authoritative_resource(recs[*i].0.clone()); line.push_str(&format!(" A {}", text::rr(&recs[*i].0))); }
+                }
+                let mut bad: Option<String> = None;
+                for gone in &seq {
+                    let before = queries(&mgr);
+                    mgr.remove_resource_record(&recs[*gone].0);
+                    line.push_str(&format!(" R {}", text::rr(&recs[*gone].0)));
+                    let after = queries(&mgr);
+                    let gone_text = text::rdata(&recs[*gone].0.rdata);
+                    for (b, a) in before.iter().zip(after.iter()) {
+                        let want: Vec<&String> = b.iter().filter(|x| **x != gone_text).collect();
+                        if want != a.iter().collect::<Vec<_>>() && bad.is_none() {
+                            bad = Some(format!("records {:?} in the store; after record {} was removed a query that returned {} record(s) returns {} (expected {})", present, gone, b.len(), a.len(), want.len()));
+                        }
+                    }
+                }
+                // the final state against the model, one query per sequence
+                let (qn, sub, auth, cached) = [(&parent, 1u8, 1u8, 0u8), (&parent, 1, 0, 1), (&root, 1, 1, 1), (&child, 0, 1, 0), (&parent, 1, 1, 1), (&other, 1, 1, 0)][k % 6];
+                let filter = match (sub, auth, cached) { (0, _, _) => DomainResourceFilter::authoritative(false), (_, 1, 0) => DomainResourceFilter::authoritative(true), (_, 0, _) => DomainResourceFilter::cached(), _ => DomainResourceFilter::all() };
+                let got: Vec<String> = mgr.get_domain_resources(qn, filter).flatten().map(|r| text::rr(r)).collect();
+                let mut c = Case::new(format!("{} G {} {} {} {} 1", line, text::name(qn), sub, auth, cached), sorted(got)).tag("remove-leaves-the-others");
+                if let Some(m) = bad { c = c.fail("removed-another-record", m); }
+                v.push(c);
+            }
         }
     }
     for round in 0..rounds {
